@@ -56,12 +56,24 @@ def queue_situation(it, sit):
     raise ValueError(sit)
 
 
+def same_text(spec):
+    """one eventless probe guard is spelled exactly like a piece of code that was *executed* before (the entry code
+    of the root state): whether a text is a guard or an action is decided by where it stands, not by its spelling"""
+    for t in spec['transitions']:
+        if t.get('event') is None and t.get('guard') == 'G(%d, event)' % t['tid']:
+            t['guard'] = 'G(%d, None)' % t['tid']       # an eventless guard sees no event anyway
+            root = next(s for s in spec['states'] if s['parent'] is None)
+            root['on_entry'] = t['guard']
+            return
+
+
 def work(task):
     tree, scheme, k, prios = task[:4]
     skip = task[4] if len(task) > 4 else None
     moved = len(task) > 5 and task[5] == 'moved'
     spec = flatten(tree, scheme, probes=False)
     spec, navs = add_scheme_P(spec, prios=prios, skip=skip)
+    same_text(spec)
     m = Model(spec)
     sc, objs = (build_api_moved if moved else build_api)(spec)
     tid_of = {id(o): i for i, o in enumerate(objs)}
@@ -255,6 +267,7 @@ def replay(data):
     tree, scheme, k, prios = task[:4]
     spec = flatten(tree, scheme, probes=False)
     spec, navs = add_scheme_P(spec, prios=prios, skip=task[4] if len(task) > 4 else None)
+    same_text(spec)
     m = Model(spec)
     sc, objs = (build_api_moved if len(task) > 5 and task[5] == 'moved' else build_api)(spec)
     it = Interpreter(sc, initial_context=probes.CONTEXT())
